@@ -98,3 +98,9 @@ impl From<Error> for SendError {
         Self::Connection(src)
     }
 }
+
+#[cfg(feature = "verif")]
+#[allow(missing_docs, dead_code, unused_imports)]
+pub(crate) mod verif_h {
+    include!(concat!(env!("H2_VERIF_DIR"), "/harness/proto/error.rs"));
+}
